@@ -303,17 +303,20 @@ fn materialise(idx: usize, v: &Value, seed: u64) -> Mat {
                 let k = if a == "@pa1" { "a" } else { "b" };
                 match cls {
                     "valid" => {
-                        let (u, p) = (format!("u{}{}", idx, k), format!("pw{}{}q{}V4lid", idx, k, salt));
+                        // Secrets.tla PasswordShapes: the password may contain the separator of the credentials
+                        let p = match idx % 3 { 0 => format!("pw{}{}q{}V4lid", idx, k, salt), 1 => format!("pw{}{}q{}:V4lid{}x", idx, k, salt, salt), _ => format!("pw{}{}q{}:m1d{}dle:V4lid{}x", idx, k, salt, salt, salt) };
+                        let u = format!("u{}{}", idx, k);
                         clients.push((u.clone(), p.clone()));
-                        if is_secret("@pw") { plants.push(("password[configured]".to_string(), p.clone(), vec![])); }
+                        let parts: Vec<String> = p.split(':').map(|x| x.to_string()).collect();
+                        if is_secret("@pw") { plants.push(("password[configured]".to_string(), p.clone(), if parts.len() > 1 { parts.clone() } else { vec![] })); }
                         let c = b64(&format!("{}:{}", u, p));
-                        if is_secret(a) { plants.push((tag.clone(), c.clone(), vec![p])); }
+                        if is_secret(a) { let mut e = vec![p.clone()]; if parts.len() > 1 { e.extend(parts.clone()); } plants.push((tag.clone(), c.clone(), e)); }
                         format!("Basic {}", c)
                     }
                     "wrong" => {
-                        let p = format!("wr0ng{}{}q{}", idx, k, salt);
+                        let p = match idx % 3 { 0 => format!("wr0ng{}{}q{}", idx, k, salt), _ => format!("wr0ng{}{}q{}:t4il{}x", idx, k, salt, salt) };
                         let c = b64(&format!("u{}{}:{}", idx, k, p));
-                        if is_secret(a) { plants.push((tag.clone(), c.clone(), vec![p])); }
+                        if is_secret(a) { let mut e = vec![p.clone()]; e.extend(p.split(':').map(|x| x.to_string())); plants.push((tag.clone(), c.clone(), e)); }
                         format!("Basic {}", c)
                     }
                     _ => {
